@@ -1899,7 +1899,12 @@ impl CommandParser {
             // Database commands
             "FLUSHDB" => Command::Database(DatabaseCommand::FlushDb),
             "FLUSHALL" => Command::Database(DatabaseCommand::FlushAll),
-            "DBSIZE" => Command::Database(DatabaseCommand::DbSize),
+            "DBSIZE" => {
+                if frames.len() != 1 {
+                    return Err(FerrousError::Command(CommandError::WrongNumberOfArguments("DBSIZE".into())));
+                }
+                Command::Database(DatabaseCommand::DbSize)
+            }
             "KEYS" => Command::Database(Self::parse_keys_cmd(frames)?),
             
             // Consumer Group commands
